@@ -55,6 +55,8 @@ def _case(draw):
         case["exc"] = {"method": draw(st.sampled_from(["cis", "rpa"])), "state": k, "n_states": min(k + 1, M.n_ov(mol["tpl"]) // 2)}
         case["exc"]["state"] = min(case["exc"]["state"], case["exc"]["n_states"])
     case["t"] = [draw(S.q3) * 5 for _ in range(3)]
+    if "mates" in case and not case.get("exc") and draw(st.booleans()):
+        case["reuse_driver"] = True
     return case
 
 
@@ -84,7 +86,7 @@ def _rows(case):
     return rows, (case.get("row", 0) if "mates" in case else 0)
 
 
-def _run(case, rows, shift=None):
+def _run(case, rows, shift=None, reuse=False):
     sol = case["solver"]
     uhf = any(r[3] != 1 for r in rows)
     ex = {}
@@ -92,9 +94,29 @@ def _run(case, rows, shift=None):
         e = case["exc"]
         ex = {"excited_states": {"method": e["method"], "n_states": e["n_states"], "tolerance": 1e-8}, "active_state": e["state"]}
     geo = [(r[0], r[1] + (shift if shift is not None else 0.0)) for r in rows]
-    Sx, X = pad_batch(geo, width=max(len(r[0]) for r in rows) + case.get("padw", 0))
-    return run_sp(Sx, X, method=case["mol"]["method"], eps=sol["eps"], conv=sol["conv"], sp2=sol["sp2"],
-                  charges=np.array([r[2] for r in rows]), mult=np.array([r[3] for r in rows]), uhf=uhf, extra=ex), uhf
+    width = max(len(r[0]) for r in rows) + case.get("padw", 0)
+    Sx, X = pad_batch(geo, width=width)
+    if not reuse:
+        return run_sp(Sx, X, method=case["mol"]["method"], eps=sol["eps"], conv=sol["conv"], sp2=sol["sp2"],
+                      charges=np.array([r[2] for r in rows]), mult=np.array([r[3] for r in rows]), uhf=uhf, extra=ex), uhf
+    # "for every calculation": also for one that reuses a driver object (and its settings dictionary) which has just been
+    # used for ANOTHER batch of the same tensor shape and the same element set -- here the same rows in reversed order.
+    from types import SimpleNamespace
+
+    from ..seqm_api import Constants, Electronic_Structure, Molecule, settings, silence, torch
+
+    sp = settings(case["mol"]["method"], sol["eps"], sol["conv"], sol["sp2"], uhf, ex)
+    dgeo = geo[::-1]
+    Sd, Xd = pad_batch(dgeo, width=width)
+    ch = np.array([r[2] for r in rows])
+    mu = np.array([r[3] for r in rows])
+    with silence() as buf:
+        decoy = Molecule(Constants(), sp, torch.tensor(Xd), torch.tensor(Sd), charges=torch.tensor(ch[::-1].copy()), mult=torch.tensor(mu[::-1].copy()))
+        es = Electronic_Structure(sp)
+        es(decoy)
+        mol = Molecule(Constants(), sp, torch.tensor(X), torch.tensor(Sx), charges=torch.tensor(ch), mult=torch.tensor(mu))
+        es(mol)
+    return SimpleNamespace(mol=mol, es=es, sp=sp, out=buf.getvalue(), S=Sx, X=X), uhf
 
 
 class Identities(SubCheck):
@@ -114,8 +136,10 @@ class Identities(SubCheck):
         method = case["mol"]["method"]
         labels = S.mol_labels(case["mol"], Z) + S.solver_labels(case["solver"]) + ["layout:" + ("batch" if "mates" in case else "single")]
         labels.append("state:" + (case["exc"]["method"] + str(case["exc"]["state"]) if case.get("exc") else "S0"))
+        if case.get("reuse_driver"):
+            labels.append("reused_driver_after_other_batch")
         try:
-            r, uhf = _run(case, rows)
+            r, uhf = _run(case, rows, reuse=bool(case.get("reuse_driver")))
         except Exception as e:
             return Outcome.fail(f"exception:{type(e).__name__}", f"{type(e).__name__}: {e}", labels)
         if notconv(r).any():
@@ -226,4 +250,81 @@ class Identities(SubCheck):
             yield dict(case, mol=mm)
 
 
-SUBCHECKS = [Identities()]
+@st.composite
+def _mixed_case(draw):
+    method = draw(st.sampled_from(M.METHODS_SP))
+    pool = [t for t in M.names(method, ("neutral",), 5, 3) if M.n_ov(t) >= 6 and not M.is_linear(t)]
+    tpl = draw(st.sampled_from(pool))
+    n = len(M.ALL[tpl]["Z"])
+    nrow = draw(st.integers(2, 3))
+    states = [draw(st.integers(0, 2)) for _ in range(nrow)]
+    if all(s_ == states[0] for s_ in states):
+        states[0] = 0 if states[0] else 1
+    return {"method": method, "tpl": tpl, "states": states, "backward": draw(st.sampled_from([1, 2])),
+            "disp": [draw(st.lists(S.q3, min_size=3 * n, max_size=3 * n)) for _ in range(nrow)]}
+
+
+class MixedStates(SubCheck):
+    """per-molecule active states that mix ground (0) and excited (k) members of one homogeneous batch: every member's
+    Etot must be Eelec + Enuc plus ITS OWN active-state excitation energy (nothing for a ground-state member), and equal
+    the energy of the same molecule computed alone on that state."""
+    name = "mixed_states"
+    budget = {"quick": 200, "thorough": 5000}
+    weight = 4.0
+
+    def strategy(self, tier):
+        return _mixed_case()
+
+    def _call(self, case, members):
+        from ..seqm_api import Constants, Electronic_Structure, Molecule, settings, silence, torch
+
+        geos = [M.geometry({"tpl": case["tpl"], "amp": 0.06, "disp": case["disp"][b]}) for b in members]
+        sp = settings(case["method"], 1e-9, (1,), (False,), False,
+                      {"excited_states": {"method": "cis", "n_states": 3, "tolerance": 1e-8}, "scf_backward": case["backward"], "active_state": 0})
+        Sx = np.array([g[0] for g in geos])
+        X = np.array([g[1] for g in geos])
+        with silence():
+            mol = Molecule(Constants(), sp, torch.tensor(X), torch.tensor(Sx))
+            mol.active_state = torch.tensor([case["states"][b] for b in members])
+            es = Electronic_Structure(sp)
+            es(mol)
+        return mol, es
+
+    def oracle(self, case):
+        labels = ["method:" + case["method"], "states:" + ",".join(map(str, case["states"])), "backward:%d" % case["backward"]]
+        nrow = len(case["states"])
+        try:
+            mol, es = self._call(case, list(range(nrow)))
+        except Exception as e:
+            return Outcome.inconclusive(f"mixed_states_not_supported:{type(e).__name__}", labels)
+        if bool(torch_any(es.notconverged)):
+            return Outcome.inconclusive("scf_not_converged", labels)
+        worst = 0.0
+        for b in range(nrow):
+            k = case["states"][b]
+            exc = float(mol.cis_energies[b, k - 1]) if k > 0 else 0.0
+            d = abs(float(mol.Etot[b]) - (float(mol.Eelec[b]) + float(mol.Enuc[b]) + exc))
+            worst = max(worst, d)
+            if d > 1e-6:
+                return Outcome.fail("etot_partition:mixed_active_states", f"member {b} (active state {k}) of a batch with states {case['states']}: Etot - (Eelec+Enuc+E_exc) = "
+                                    f"{float(mol.Etot[b]) - (float(mol.Eelec[b]) + float(mol.Enuc[b]) + exc):+.6f} eV", labels, True)
+            try:
+                m1, e1 = self._call(case, [b])
+            except Exception:
+                continue
+            d2 = abs(float(m1.Etot[0]) - float(mol.Etot[b]))
+            if d2 > 1e-6:
+                return Outcome.fail("etot_depends_on_other_members_active_state", f"member {b} (state {k}): Etot in the mixed batch {float(mol.Etot[b]):.6f} vs alone {float(m1.Etot[0]):.6f}", labels, True)
+            dh = abs(float(m1.Hf[0]) - float(mol.Hf[b]))
+            if dh > 1e-6:
+                return Outcome.fail("hf_depends_on_other_members_active_state", f"member {b}: Hf differs by {dh:.3e}", labels, True)
+        return Outcome.ok(True, labels, partition=worst)
+
+
+def torch_any(t):
+    import torch as _t
+
+    return bool(_t.as_tensor(t).any())
+
+
+SUBCHECKS = [Identities(), MixedStates()]
